@@ -1547,7 +1547,7 @@ Proof. unfold serve_all. case_match; reflexivity. Qed.
 Lemma serve_all_msgs pr c : Forall (fun m => is_fin m = false) (serve_all pr c).2.
 Proof.
   unfold serve_all. case_match; cbn [snd]; [|constructor].
-  apply Forall_fmap, Forall_forall. intros [a v] _. reflexivity.
+  apply Forall_app_2; apply Forall_fmap, Forall_forall; intros [a v] _; reflexivity.
 Qed.
 
 Lemma snapshot_entity_msgs_nofin pr e en : Forall (fun m => is_fin m = false) (snapshot_entity_msgs pr e en).
@@ -1595,20 +1595,22 @@ Qed.
 
 (* what the messages of a snapshot are computed from *)
 Definition snap_key (pr : peer_state) :=
-  (p_ents pr, t_e2u pr, p_sync_types pr, a_store pr, (t_mat pr, t_mesh pr, t_audio pr), p_id pr).
+  (p_ents pr, t_e2u pr, p_sync_types pr, a_store pr, (t_mat pr, t_mesh pr, t_audio pr), p_id pr, d_pending pr).
 
 Lemma snap_key_inv a b : snap_key a = snap_key b ->
   p_ents a = p_ents b /\ t_e2u a = t_e2u b /\ p_sync_types a = p_sync_types b /\ a_store a = a_store b /\
-  t_mat a = t_mat b /\ t_mesh a = t_mesh b /\ t_audio a = t_audio b /\ p_id a = p_id b.
-Proof. unfold snap_key. intros H. injection H as -> -> -> -> -> -> -> ->. repeat split. Qed.
+  t_mat a = t_mat b /\ t_mesh a = t_mesh b /\ t_audio a = t_audio b /\ p_id a = p_id b /\
+  d_pending a = d_pending b.
+Proof. unfold snap_key. intros H. injection H as -> -> -> -> -> -> -> -> ->. repeat split. Qed.
 
 Lemma snap_key_serve_all a c : snap_key (serve_all a c).1 = snap_key a.
 Proof. unfold serve_all. case_match; reflexivity. Qed.
 
 Lemma serve_all_msgs_ext a b c : snap_key a = snap_key b -> (serve_all a c).2 = (serve_all b c).2.
 Proof.
-  intros H. apply snap_key_inv in H as (_ & _ & _ & Hs & Hm & Hme & Ha & Hid).
+  intros H. apply snap_key_inv in H as (_ & _ & _ & Hs & Hm & Hme & Ha & Hid & Hpd).
   unfold serve_all.
+  assert (pending_of a c = pending_of b c) as -> by (unfold pending_of; rewrite Hpd; reflexivity).
   assert (class_enabled a (KClass c) = class_enabled b (KClass c)) as -> by (destruct c; cbn; congruence).
   assert (assets_of_kind a (KClass c) = assets_of_kind b (KClass c)) as -> by (unfold assets_of_kind; congruence).
   case_match; cbn [snd]; [|reflexivity]. rewrite Hid. reflexivity.
